@@ -607,9 +607,15 @@ class Emitter:
             if name in DROP_CALLS:
                 self.dropped.append(name)
                 return "((void)0)"
-            # plain call of a CXXMethodDecl = static member function: named like the methods of its class (clang's JSON
-            # gives no qualifier for the callee; an unqualified call can only reach the current class or a base of it)
-            stat_cls = self.unit.cls if rd.get("kind") == "CXXMethodDecl" else None
+            # plain call of a CXXMethodDecl = static member function. clang's JSON gives no qualifier for the callee, so the
+            # class is only known when the callee is itself a configured unit `...::Class::name`: then it is named like
+            # that unit (Class__name); any other static callee keeps its bare name, as before.
+            stat_cls = None
+            if rd.get("kind") == "CXXMethodDecl":
+                for u in self.cfg.get("units", []):
+                    parts = u["name"].split("::")
+                    if len(parts) >= 2 and parts[-1] == name:
+                        stat_cls = self.tm.struct_tag(parts[-2])
             cname = self.fn_cname(stat_cls, name, fnt)
             params = self.fn_params_from(fnt)
             a = self.call_args(args, params)
